@@ -162,3 +162,7 @@ Definition chk_alias (n : N) (ftbl : list (row * list row)) (t : twopass) (tbl :
 (* stats without a BY clause in front of a two-pass command (known defect) *)
 Definition chk_noby (c : command) (t : twopass) (tbl : batch) (expect : batch) : bool :=
   batch_eqb (stats_noby_two_pass c t tbl) expect.
+
+(* the kept rows given as observed (sort, which has no Coq model) *)
+Definition chk_alias_rows (kept : batch) (ftbl : list (row * list row)) (t : twopass) (expect : batch) : bool :=
+  batch_eqb (alias_two_pass (f1_of_table ftbl) t kept) expect.
